@@ -299,12 +299,12 @@ theorem mergeParent_err {ln : List Name} {d : Dict} {r : ParentRes} {e : Err}
   exact ⟨n, hn⟩
 
 /-- the whole parent loop as seen from one name -/
-def slotFold (isLocal : Bool) (s : Slot) (xs : List (Nat × Option Obj)) : Except Err Slot :=
-  xs.foldlM (fun s x => stepSlot isLocal s x.1 x.2) s
+def slotFold (isLocal : Bool) (s : Slot) (xs : List (LayerKind × Option Obj)) : Except Err Slot :=
+  xs.foldlM (fun s x => stepSlot isLocal s x.1.prio x.2) s
 
 theorem mergeAll_ok {ln : List Name} : ∀ (rs : List ParentRes) (d d' : Dict),
     (∀ r ∈ rs, (r.objs.map (·.name)).Nodup) → rs.foldlM (mergeParent ln) d = .ok d' →
-    ∀ n, slotFold (ln.contains n) (dictGet d n) (rs.map fun r => (r.prio, offerOf r n)) = .ok (dictGet d' n) := by
+    ∀ n, slotFold (ln.contains n) (dictGet d n) (rs.map fun r => (r.kind, offerOf r n)) = .ok (dictGet d' n) := by
   intro rs
   induction rs with
   | nil => intro d d' _ h n; simp only [List.foldlM_nil] at h; cases h; rfl
@@ -316,14 +316,15 @@ theorem mergeAll_ok {ln : List Name} : ∀ (rs : List ParentRes) (d d' : Dict),
     | ok d1 =>
       rw [hm] at h
       have h' : rs.foldlM (mergeParent ln) d1 = .ok d' := h
-      have h1 := mergeParent_ok (hnd r (List.mem_cons_self ..)) hm n
+      have h1 : stepSlot (ln.contains n) (dictGet d n) r.kind.prio (offerOf r n) = .ok (dictGet d1 n) :=
+        mergeParent_ok (hnd r (List.mem_cons_self ..)) hm n
       have h2 := ih d1 d' (fun r hr => hnd r (List.mem_cons_of_mem _ hr)) h' n
       simp only [slotFold, List.map_cons, List.foldlM_cons, h1] at h2 ⊢
       exact h2
 
 theorem mergeAll_err {ln : List Name} {e : Err} : ∀ (rs : List ParentRes) (d : Dict),
     (∀ r ∈ rs, (r.objs.map (·.name)).Nodup) → rs.foldlM (mergeParent ln) d = .error e →
-    ∃ n, slotFold (ln.contains n) (dictGet d n) (rs.map fun r => (r.prio, offerOf r n)) = .error e := by
+    ∃ n, slotFold (ln.contains n) (dictGet d n) (rs.map fun r => (r.kind, offerOf r n)) = .error e := by
   intro rs
   induction rs with
   | nil => intro d _ h; simp only [List.foldlM_nil] at h; cases h
@@ -336,6 +337,7 @@ theorem mergeAll_err {ln : List Name} {e : Err} : ∀ (rs : List ParentRes) (d :
       have : e' = e := by cases h; rfl
       subst this
       obtain ⟨n, hn⟩ := mergeParent_err (hnd r (List.mem_cons_self ..)) hm
+      have hn : stepSlot (ln.contains n) (dictGet d n) r.kind.prio (offerOf r n) = .error e' := hn
       refine ⟨n, ?_⟩
       simp only [slotFold, List.map_cons, List.foldlM_cons, hn]
       rfl
@@ -343,7 +345,8 @@ theorem mergeAll_err {ln : List Name} {e : Err} : ∀ (rs : List ParentRes) (d :
       rw [hm] at h
       have h' : rs.foldlM (mergeParent ln) d1 = .error e := h
       obtain ⟨n, hn⟩ := ih d1 (fun r hr => hnd r (List.mem_cons_of_mem _ hr)) h'
-      have h1 := mergeParent_ok (hnd r (List.mem_cons_self ..)) hm n
+      have h1 : stepSlot (ln.contains n) (dictGet d n) r.kind.prio (offerOf r n) = .ok (dictGet d1 n) :=
+        mergeParent_ok (hnd r (List.mem_cons_self ..)) hm n
       refine ⟨n, ?_⟩
       simp only [slotFold, List.map_cons, List.foldlM_cons, h1] at hn ⊢
       exact hn
@@ -351,15 +354,23 @@ theorem mergeAll_err {ln : List Name} {e : Err} : ∀ (rs : List ParentRes) (d :
 
 /-! ## the per-name loop over parents sorted by descending priority -/
 
+/-- priority of an offer under the table of the implementation -/
+abbrev Offer.prio (a : Offer) : Nat := a.kind.prio
+
+/-- the specification's selection, ranked by the table of the implementation -/
+abbrev topOffersI (os : List Offer) : List Offer := topOffers LayerKind.prio os
+abbrev clashI (os : List Offer) : Bool := clash LayerKind.prio os
+
+
 /-- the offers actually made, as `Offer`s -/
-def realOffers (xs : List (Nat × Option Obj)) : List Offer :=
+def realOffers (xs : List (LayerKind × Option Obj)) : List Offer :=
   xs.filterMap fun x => x.2.map fun o => ⟨x.1, o⟩
 
-theorem slotFold_cons (b : Bool) (s : Slot) (x : Nat × Option Obj) (xs : List (Nat × Option Obj)) :
-    slotFold b s (x :: xs) = (stepSlot b s x.1 x.2 >>= fun s' => slotFold b s' xs) := by
+theorem slotFold_cons (b : Bool) (s : Slot) (x : LayerKind × Option Obj) (xs : List (LayerKind × Option Obj)) :
+    slotFold b s (x :: xs) = (stepSlot b s x.1.prio x.2 >>= fun s' => slotFold b s' xs) := by
   simp [slotFold, List.foldlM_cons]
 
-theorem slotFold_some (b : Bool) (e : Entry) : ∀ (xs : List (Nat × Option Obj)), (∀ x ∈ xs, x.1 ≤ e.prio) →
+theorem slotFold_some (b : Bool) (e : Entry) : ∀ (xs : List (LayerKind × Option Obj)), (∀ x ∈ xs, x.1.prio ≤ e.prio) →
     (∀ s, slotFold b (some e) xs = .ok s →
         s = some e ∧ (b = true ∨ ∀ z ∈ realOffers xs, z.prio = e.prio → z.obj = e.obj))
     ∧ (∀ err, slotFold b (some e) xs = .error err →
@@ -381,7 +392,7 @@ theorem slotFold_some (b : Bool) (e : Entry) : ∀ (xs : List (Nat × Option Obj
     obtain ⟨q, off⟩ := x
     cases off with
     | none =>
-      have hstep : stepSlot b (some e) q none = .ok (some e) := rfl
+      have hstep : stepSlot b (some e) q.prio none = .ok (some e) := rfl
       have hro : realOffers ((q, none) :: xs) = realOffers xs := by simp [realOffers]
       rw [hro]
       refine ⟨fun s h => ?_, fun err h => ?_⟩
@@ -391,22 +402,22 @@ theorem slotFold_some (b : Bool) (e : Entry) : ∀ (xs : List (Nat × Option Obj
       have hro : realOffers ((q, some o) :: xs) = ⟨q, o⟩ :: realOffers xs := by simp [realOffers]
       rw [hro]
       simp only at hx
-      by_cases h1 : q < e.prio
-      · have hstep : stepSlot b (some e) q (some o) = .ok (some e) := by simp [stepSlot, h1]
+      by_cases h1 : q.prio < e.prio
+      · have hstep : stepSlot b (some e) q.prio (some o) = .ok (some e) := by simp [stepSlot, h1]
         refine ⟨fun s h => ?_, fun err h => ?_⟩
         · rw [slotFold_cons] at h; simp only [hstep] at h
           obtain ⟨hs, hc⟩ := ih'.1 s h
           refine ⟨hs, hc.imp id fun hc z hz hp => ?_⟩
           rcases List.mem_cons.1 hz with rfl | hz
-          · simp only at hp; omega
+          · simp only [Offer.prio] at hp; omega
           · exact hc z hz hp
         · rw [slotFold_cons] at h; simp only [hstep] at h
           obtain ⟨hb, z, hz, hp⟩ := ih'.2 err h
           exact ⟨hb, z, List.mem_cons_of_mem _ hz, hp⟩
-      · have h2 : ¬ e.prio < q := by omega
-        have hq : q = e.prio := by omega
+      · have h2 : ¬ e.prio < q.prio := by omega
+        have hq : q.prio = e.prio := by omega
         by_cases h3 : b = true
-        · have hstep : stepSlot b (some e) q (some o) = .ok (some e) := by simp [stepSlot, h1, h2, h3]
+        · have hstep : stepSlot b (some e) q.prio (some o) = .ok (some e) := by simp [stepSlot, h1, h2, h3]
           refine ⟨fun s h => ?_, fun err h => ?_⟩
           · rw [slotFold_cons] at h; simp only [hstep] at h
             exact ⟨(ih'.1 s h).1, Or.inl h3⟩
@@ -414,7 +425,7 @@ theorem slotFold_some (b : Bool) (e : Entry) : ∀ (xs : List (Nat × Option Obj
             have := (ih'.2 err h).1
             rw [h3] at this; cases this
         · by_cases h4 : o = e.obj
-          · have hstep : stepSlot b (some e) q (some o) = .ok (some e) := by simp [stepSlot, h1, h2, h4]
+          · have hstep : stepSlot b (some e) q.prio (some o) = .ok (some e) := by simp [stepSlot, h1, h2, h4]
             refine ⟨fun s h => ?_, fun err h => ?_⟩
             · rw [slotFold_cons] at h; simp only [hstep] at h
               obtain ⟨hs, hc⟩ := ih'.1 s h
@@ -425,14 +436,14 @@ theorem slotFold_some (b : Bool) (e : Entry) : ∀ (xs : List (Nat × Option Obj
             · rw [slotFold_cons] at h; simp only [hstep] at h
               obtain ⟨hb, z, hz, hp⟩ := ih'.2 err h
               exact ⟨hb, z, List.mem_cons_of_mem _ hz, hp⟩
-          · have hstep : stepSlot b (some e) q (some o) = .error .odx := by
+          · have hstep : stepSlot b (some e) q.prio (some o) = .error .odx := by
               simp [stepSlot, h1, h2, h3, h4]
             refine ⟨fun s h => ?_, fun err _ => ?_⟩
             · rw [slotFold_cons] at h; simp only [hstep] at h; cases h
             · refine ⟨by simpa using h3, ⟨q, o⟩, List.mem_cons_self .., hq, h4⟩
 
 
-theorem slotFold_none (b : Bool) : ∀ (xs : List (Nat × Option Obj)), xs.Pairwise (fun a c => c.1 ≤ a.1) →
+theorem slotFold_none (b : Bool) : ∀ (xs : List (LayerKind × Option Obj)), xs.Pairwise (fun a c => c.1.prio ≤ a.1.prio) →
     (∀ s, slotFold b none xs = .ok s →
         s = (realOffers xs).head?.map (fun z => ⟨z.obj, z.prio⟩)
         ∧ (b = true ∨ ∀ y, (realOffers xs).head? = some y →
@@ -456,17 +467,17 @@ theorem slotFold_none (b : Bool) : ∀ (xs : List (Nat × Option Obj)), xs.Pairw
     obtain ⟨q, off⟩ := x
     cases off with
     | none =>
-      have hstep : stepSlot b none q none = .ok none := rfl
+      have hstep : stepSlot b none q.prio none = .ok none := rfl
       have hro : realOffers ((q, none) :: xs) = realOffers xs := by simp [realOffers]
       rw [hro]
       refine ⟨fun s h => ?_, fun err h => ?_⟩
       · rw [slotFold_cons] at h; simp only [hstep] at h; exact (ih hpw.2).1 s h
       · rw [slotFold_cons] at h; simp only [hstep] at h; exact (ih hpw.2).2 err h
     | some o =>
-      have hstep : stepSlot b none q (some o) = .ok (some ⟨o, q⟩) := rfl
+      have hstep : stepSlot b none q.prio (some o) = .ok (some ⟨o, q.prio⟩) := rfl
       have hro : realOffers ((q, some o) :: xs) = ⟨q, o⟩ :: realOffers xs := by simp [realOffers]
       rw [hro]
-      have hsome := slotFold_some b ⟨o, q⟩ xs (fun x hx => hpw.1 x hx)
+      have hsome := slotFold_some b ⟨o, q.prio⟩ xs (fun x hx => hpw.1 x hx)
       refine ⟨fun s h => ?_, fun err h => ?_⟩
       · rw [slotFold_cons] at h; simp only [hstep] at h
         obtain ⟨hs', hc⟩ := hsome.1 s h
@@ -483,11 +494,11 @@ theorem slotFold_none (b : Bool) : ∀ (xs : List (Nat × Option Obj)), xs.Pairw
 /-! ## offers in declaration order versus offers sorted by priority -/
 
 theorem mem_topOffers (os : List Offer) (a : Offer) :
-    a ∈ topOffers os ↔ a ∈ os ∧ ∀ b ∈ os, b.prio ≤ a.prio := by
+    a ∈ topOffersI os ↔ a ∈ os ∧ ∀ b ∈ os, b.prio ≤ a.prio := by
   simp [topOffers]
 
 theorem clash_iff (os : List Offer) :
-    clash os = true ↔ ∃ a b, a ∈ topOffers os ∧ b ∈ topOffers os ∧ a.obj ≠ b.obj := by
+    clashI os = true ↔ ∃ a b, a ∈ topOffersI os ∧ b ∈ topOffersI os ∧ a.obj ≠ b.obj := by
   simp only [clash, List.any_eq_true, decide_eq_true_eq]
   constructor
   · rintro ⟨a, ha, b, hb, h⟩; exact ⟨a, b, ha, hb, h⟩
@@ -495,7 +506,7 @@ theorem clash_iff (os : List Offer) :
 
 theorem top_of_sorted {os ys : List Offer} (hp : os.Perm ys)
     (hs : ys.Pairwise fun a c => c.prio ≤ a.prio) {y : Offer} (hy : ys.head? = some y) (a : Offer) :
-    a ∈ topOffers os ↔ a ∈ ys ∧ a.prio = y.prio := by
+    a ∈ topOffersI os ↔ a ∈ ys ∧ a.prio = y.prio := by
   cases ys with
   | nil => cases hy
   | cons y' t =>
@@ -520,14 +531,14 @@ theorem top_of_sorted {os ys : List Offer} (hp : os.Perm ys)
       omega
 
 /-- no offers at all -/
-theorem top_nil {os : List Offer} (hp : os.Perm []) : (topOffers os).head? = none ∧ clash os = false := by
+theorem top_nil {os : List Offer} (hp : os.Perm []) : (topOffersI os).head? = none ∧ clashI os = false := by
   have : os = [] := List.Perm.eq_nil hp
   subst this
   simp [topOffers, clash]
 
 theorem clash_of_sorted {os ys : List Offer} (hp : os.Perm ys)
     (hs : ys.Pairwise fun a c => c.prio ≤ a.prio) {y : Offer} (hy : ys.head? = some y) :
-    clash os = true ↔ ∃ z ∈ ys, z.prio = y.prio ∧ z.obj ≠ y.obj := by
+    clashI os = true ↔ ∃ z ∈ ys, z.prio = y.prio ∧ z.obj ≠ y.obj := by
   have hyin : y ∈ ys := by
     cases ys with
     | nil => cases hy
@@ -546,28 +557,28 @@ theorem clash_of_sorted {os ys : List Offer} (hp : os.Perm ys)
 theorem best_of_sorted {os ys : List Offer} (hp : os.Perm ys)
     (hs : ys.Pairwise fun a c => c.prio ≤ a.prio) {y : Offer} (hy : ys.head? = some y)
     (hno : ∀ z ∈ ys, z.prio = y.prio → z.obj = y.obj) :
-    ((topOffers os).head?).map (·.obj) = some y.obj := by
+    ((topOffersI os).head?).map (·.obj) = some y.obj := by
   have hyin : y ∈ ys := by
     cases ys with
     | nil => cases hy
     | cons y' t => simp only [List.head?_cons, Option.some.injEq] at hy; subst hy; exact List.mem_cons_self ..
-  have hytop : y ∈ topOffers os := (top_of_sorted hp hs hy y).2 ⟨hyin, rfl⟩
-  cases htop : topOffers os with
+  have hytop : y ∈ topOffersI os := (top_of_sorted hp hs hy y).2 ⟨hyin, rfl⟩
+  cases htop : topOffersI os with
   | nil => rw [htop] at hytop; cases hytop
   | cons a t =>
-    have ha : a ∈ topOffers os := by rw [htop]; exact List.mem_cons_self ..
+    have ha : a ∈ topOffersI os := by rw [htop]; exact List.mem_cons_self ..
     have ha' := (top_of_sorted hp hs hy a).1 ha
     simp only [List.head?_cons, Option.map_some, Option.some.injEq]
     exact hno a ha'.1 ha'.2
 
 
-theorem mem_realOffers {xs : List (Nat × Option Obj)} {z : Offer} (h : z ∈ realOffers xs) :
-    ∃ x ∈ xs, x.1 = z.prio := by
+theorem mem_realOffers {xs : List (LayerKind × Option Obj)} {z : Offer} (h : z ∈ realOffers xs) :
+    ∃ x ∈ xs, x.1 = z.kind := by
   simp only [realOffers, List.mem_filterMap, Option.map_eq_some_iff] at h
   obtain ⟨x, hx, o, _, rfl⟩ := h
   exact ⟨x, hx, rfl⟩
 
-theorem realOffers_sorted : ∀ (xs : List (Nat × Option Obj)), xs.Pairwise (fun a c => c.1 ≤ a.1) →
+theorem realOffers_sorted : ∀ (xs : List (LayerKind × Option Obj)), xs.Pairwise (fun a c => c.1.prio ≤ a.1.prio) →
     (realOffers xs).Pairwise fun a c => c.prio ≤ a.prio := by
   intro xs
   induction xs with
@@ -586,12 +597,12 @@ theorem realOffers_sorted : ∀ (xs : List (Nat × Option Obj)), xs.Pairwise (fu
       refine List.pairwise_cons.2 ⟨fun z hz => ?_, ih hpw.2⟩
       obtain ⟨x, hx, hxz⟩ := mem_realOffers hz
       have := hpw.1 x hx
-      simp only at this ⊢
-      omega
+      simp only [Offer.prio, ← hxz] at this ⊢
+      exact this
 
 /-- the offers for `n`, parents in the given order -/
 def offersFrom (rs : List ParentRes) (n : Name) : List Offer :=
-  realOffers (rs.map fun r => (r.prio, offerOf r n))
+  realOffers (rs.map fun r => (r.kind, offerOf r n))
 
 theorem offersFrom_perm (rs : List ParentRes) (n : Name) :
     (offersFrom rs n).Perm (offersFrom (sortDesc rs) n) := by
@@ -607,7 +618,7 @@ theorem offersFrom_sorted (rs : List ParentRes) (n : Name) :
 
 theorem offersFrom_cons (r : ParentRes) (rs : List ParentRes) (n : Name) :
     offersFrom (r :: rs) n =
-      (match offerOf r n with | some o => [⟨r.prio, o⟩] | none => []) ++ offersFrom rs n := by
+      (match offerOf r n with | some o => [⟨r.kind, o⟩] | none => []) ++ offersFrom rs n := by
   unfold offersFrom realOffers
   cases h : offerOf r n <;> simp [h]
 
